@@ -154,9 +154,21 @@ theorem iteration_order_invariant_mapping (env : Env) (orc : Nat → Val → Raw
   rw [(conforms_perm env).1 a _ _ (TopPerm.mapping c kvs kvs' hperm)]
 
 /-! ### regions: negation witnesses on the class table `envC` (Lemmas/CheckerEnvs.lean) -/
-/-- region `strAnnDeepSubclass`: an instance of a grandchild of P is rejected for the string annotation 'P' -/
-theorem complete_fails_strAnnDeepSubclass :
-    conforms envC (.strAnn 7) (.inst 9) = true ∧ checkType envC (fun _ _ => .raisedOther) (.strAnn 7) (.inst 9) = .reject := by decide
+/-- (was region `strAnnDeepSubclass`, repaired by 46bef98 / 9abf519) a top-level string annotation is complete without any
+    guard: whatever conforms to it - the name resolves in the context and the value is an instance of that class, at any
+    inheritance depth - is accepted, and the verdict is exactly the spec's -/
+theorem strAnn_exact (env : Env) (orc : Nat → Val → Raw) (n : NameId) (v : Val) (hr : (env.ctx n).isSome = true) :
+    checkType env orc (.strAnn n) v = if conforms env (.strAnn n) v then .accept else .reject := by
+  obtain ⟨c, hc⟩ := Option.isSome_iff_exists.mp hr
+  simp only [checkType, cfg_strBranch.1, ↓reduceIte, hc, conforms]
+theorem strAnn_complete (env : Env) (orc : Nat → Val → Raw) (n : NameId) (v : Val) (h : conforms env (.strAnn n) v = true) :
+    checkType env orc (.strAnn n) v = .accept := by
+  simp only [conforms] at h
+  cases hc : env.ctx n with
+  | none => simp [hc] at h
+  | some c => simp only [checkType, cfg_strBranch.1, ↓reduceIte, hc]; simp [hc] at h; simp [h]
+/-- … e.g. an instance of a grandchild of P for the string annotation 'P' -/
+example : conforms envC (.strAnn 7) (.inst 9) = true ∧ checkType envC (fun _ _ => .raisedOther) (.strAnn 7) (.inst 9) = .accept := by decide
 /-- region `namedtupleVsPlainClass`: a NamedTuple instance is rejected for `object` -/
 theorem complete_fails_namedtupleVsPlainClass :
     conforms envC (.cls 0) (.ntup 10 [20, 21] [.lit (.int 1), .lit (.str [97])]) = true ∧
